@@ -167,7 +167,10 @@ Definition leaf_class (vr : variant) (lw : leaf * val) : N :=
   else if vr_skip_none vr && ((is_vnone w && negb (is_vnone (lf_def lf))) || none_loss (top_fill (lf_ty lf)) (lf_ty lf) w
                            || sub_none_loss (lf_def lf) w) then 1%N
   else if negb (leaf_stable_b (vr_skip_none vr) lf (lf_def lf)) && (veq w (lf_def lf) || vr_skip_default vr) then 8%N
-  else if negb (N.eqb (skipdef_class vr lf w) 0) then skipdef_class vr lf w
+  else if negb (N.eqb (skipdef_class vr lf w) 0) then
+    (* class 11 is not a finding: a text-layer finding of the same leaf goes first *)
+    (if N.eqb (skipdef_class vr lf w) 11 && negb (N.eqb (text_class vr lf w) 0) then text_class vr lf w
+     else skipdef_class vr lf w)
   else text_class vr lf w.
 
 Fixpoint case_class (vr : variant) (lvs : list (leaf * val)) : N :=
